@@ -80,17 +80,21 @@ def tangent(env, n, ccw, end, fit, free=False):
                finding="tangent_chord_quadrant_mismatch", region=region)]
 
 
-def two_point(env, fit):
+def two_point(env, fit, end="first"):
     import forsys as fs
     x0, y0, x1, y1 = env.real("x0"), env.real("y0"), env.real("x1"), env.real("y1")
     env.assume((x0 != x1) | (y0 != y1))
     be, vs = _interface(fs, [(x0, y0), (x1, y1)])
-    versor = be.get_versor_from_vertex(vs[0].id, fit_method=fit)
-    dx, dy = x1 - x0, y1 - y0
+    if end == "first":
+        versor = be.get_versor_from_vertex(vs[0].id, fit_method=fit)
+        dx, dy = x1 - x0, y1 - y0
+    else:
+        versor = be.get_versor_from_vertex(vs[1].id, fit_method=fit)
+        dx, dy = x0 - x1, y0 - y1
     L = np.sqrt(dx * dx + dy * dy)
     good = env.eq(versor[0] * L, dx) & env.eq(versor[1] * L, dy)
     region = (dx * dx != dy * dy)
-    return [Ob("two-point-versor-is-chord-direction", good, finding="two_point_interface", region=region)]
+    return [Ob("two-point-versor-is-chord-direction-away-from-the-junction", good, finding="two_point_interface", region=region)]
 
 
 def objective_zero(env, n, free):
@@ -145,17 +149,32 @@ def matrix(env, topo, ignore_four, n_int=3):
     used = spec.used_junctions(ignore_four=bool(ignore_four))
     obs = []
     obs.append(Ob("one-column-per-internal-interface", sorted(cols) == sorted(internal) and M.shape[1] == len(internal)))
-    # zero-component region at a junction: some tangent of an internal interface there has an exactly zero component
-    zero_any = False
-    for pn in set(used) | set(rows):
-        for ln in spec.lines_at(pn):
-            if ln in internal:
-                u = vs.u(ln, pn)
-                zero_any = zero_any | (u[0] == 0) | (u[1] == 0)
+    # Region of the recorded finding, stated as the exact condition under which the shipped filter deviates from the
+    # property (not merely "some component is zero"): with k internal interfaces at a junction shared by >= 3 cells and
+    # nx / ny non-zero x / y components among them,
+    #   expected rows  <=>  k >= 3 and not (ignore_four and k >= 4)
+    #   shipped filter <=>  (nx >= 3 or ny >= 3) and (not ignore_four or (nx < 4 and ny < 4))
+    def nz(v):
+        if env.mode == "sym":
+            from symx.core import SymReal, lift
+            import z3
+            return SymReal(z3.If(lift(v) != 0, z3.RealVal(1), z3.RealVal(0)))
+        return 1 if v != 0 else 0
+    deviates = False
+    for pn in spec.points:
+        ls = [ln for ln in spec.lines_at(pn) if ln in internal]
+        if len(spec.cells_of_point(pn)) < 3 or not ls:
+            continue
+        k = len(ls)
+        nx = sum((nz(vs.u(ln, pn)[0]) for ln in ls[1:]), nz(vs.u(ls[0], pn)[0]))
+        ny = sum((nz(vs.u(ln, pn)[1]) for ln in ls[1:]), nz(vs.u(ls[0], pn)[1]))
+        expected = k >= 3 and not (bool(ignore_four) and k >= 4)
+        shipped = ((nx >= 3) | (ny >= 3)) & (True if not ignore_four else ((nx < 4) & (ny < 4)))
+        deviates = deviates | (shipped != expected)
     obs.append(Ob("rows-exactly-for-junctions-of-3-cells-and-3-interfaces",
                   sorted(rows) == sorted(used) and M.shape[0] == 2 * len(used)
                   and sorted(rows.values()) == list(range(0, 2 * len(used), 2)),
-                  finding="zero_tangent_component", region=zero_any))
+                  finding="zero_tangent_component", region=deviates))
     ok = env.true()
     for pn, r0 in rows.items():
         for ci, ln in enumerate(cols):
@@ -178,7 +197,8 @@ def jobs(tier):
                     js.append(Job(f"tangent-n{n}-{'ccw' if ccw else 'cw'}-{end}-{fit}", "c02:tangent",
                                   dict(n=n, ccw=ccw, end=end, fit=fit), budget_s=300))
     for fit in ("dlite", "taubinSVD"):
-        js.append(Job(f"two-point-{fit}", "c02:two_point", dict(fit=fit), budget_s=300))
+        for end in ("first", "last"):
+            js.append(Job(f"two-point-{fit}-{end}", "c02:two_point", dict(fit=fit, end=end), budget_s=300))
     for n in ((3, 4) if tier == "quick" else (3, 4, 5, 7)):
         js.append(Job(f"objective-zero-n{n}", "c02:objective_zero", dict(n=n, free=False), budget_s=300))
     if tier == "thorough":
